@@ -18,7 +18,7 @@ Definition run_m (m:M unit) (rn:rnode) (val:list nat) (plan:list (nat * cmd)) : 
 
 Definition direct_code (cf:cfg) : nat := match c_be cf with Mp11 => INFO_DIRECT | _ => SRC_DIRECT end.
 
-Definition run_op (cf:cfg) (ops:child_ops) (fuel:nat) (rn:rnode) (o:op) : rnode * list titem :=
+Definition run_op (cf:cfg) (root:machine) (ops:child_ops) (fuel:nat) (rn:rnode) (o:op) : rnode * list titem :=
   match o with
   | OStart val plan => run_m (co_start ops fuel) rn val plan
   | OStop plan => run_m (co_stop ops fuel) rn [] plan
@@ -26,6 +26,7 @@ Definition run_op (cf:cfg) (ops:child_ops) (fuel:nat) (rn:rnode) (o:op) : rnode 
   | OEnqueue e => run_m (co_enqueue ops e) rn [] []
   | ODrain val plan => run_m (co_drain ops fuel 0) rn val plan
   | ODrain1 val plan => run_m (co_drain ops fuel 1) rn val plan
+  | OReset => (init_rnode root, [])
   end.
 
 (* the active configuration as the introspection API reports it: ids of the root and, recursively,
@@ -43,7 +44,7 @@ Fixpoint run_ops (cf:cfg) (root:machine) (ops:child_ops) (fuel:nat) (rn:rnode) (
   : list (list titem * list (list nat * list nat)) :=
   match l with
   | [] => []
-  | o :: t => let '(rn', tr) := run_op cf ops fuel rn o in
+  | o :: t => let '(rn', tr) := run_op cf root ops fuel rn o in
               (tr, snapshot root rn' []) :: run_ops cf root ops fuel rn' t
   end.
 
